@@ -2,7 +2,7 @@ CONSTANTS
   NV = 3
   NSlots = 2
   MaxLen = 5
-  WithMove = TRUE
+  WithMove = FALSE
 INIT Init
 NEXT Next
 INVARIANT Emit
